@@ -74,6 +74,17 @@ def run(chk, replay=None):
         for i in range(0, n + 3):
             cases.append([8, n, i]); tags.append("axle-index")
     correspondence(chk, cases, tags, exe, drv, okb=okb, describe=lambda c, o: {"case": c[:40], "output": o[:40]})
+    # the same cases, panicking ones included, on an optimised build without debug assertions: none of them involves integer
+    # overflow, so the release build must behave exactly like the model (an out-of-range index must still panic, not read memory)
+    exe_r = build_harness("std_chk_rel")
+    rel = run_sharded(exe_r, cases); mod = run_sharded(drv, cases)
+    for c, t, ro, mo in zip(cases, tags, rel, mod):
+        if ro != mo:
+            what = "release build: out-of-range or unchecked access instead of a panic" if mo == [99] else "release build differs from the model"
+            chk.violation("%s [%s]: %s vs model %s" % (what, t, ro[:12], mo[:12]), {"case": c, "tag": t, "impl_release": ro, "model": mo,
+                          "release_config": CONFIGS["std_chk_rel"][0] + " --release"}, True)
+            break
+    chk.cov["release_build_cases_compared_with_model"] = len(cases)
     chk.cov["exhaustive"] = True
     chk.cov["exhaustive_part"] = "arities 1..8 x all 2^N absent/present patterns of SumStream and ProductStream with the MaybeUninit arrays poisoned by the rrtk_verif hook; the four own/partner presence combinations of a terminal (x connected or not); axle sizes 0..8 with every index 0..N+2"
     # (4) lifetimes: signature tables and compile probes (report, not proof)
